@@ -43,6 +43,8 @@ func Main(args []string) int {
 			return checkC13()
 		case "C14conc":
 			return checkC14conc()
+		case "C17open":
+			return checkC17Open()
 		case "C14ctl":
 			return checkC14ctl()
 		case "C01conc":
@@ -858,6 +860,15 @@ func checkSimple(prop, harness, evName string) int {
 		if tier == "thorough" {
 			levels = append(levels, Bounds{3, 0, 3}, Bounds{4, 0, 4})
 		}
+	case "C17open":
+		for _, cf := range c17OpenConfigs(tier) {
+			cf := cf
+			jobs = append(jobs, Job{Harness: harness, C14: &cf})
+		}
+		levels = []Bounds{{0, 0, 0}, {1, 0, 1}, {2, 0, 2}}
+		if tier == "thorough" {
+			levels = append(levels, Bounds{3, 0, 3}, Bounds{4, 0, 4})
+		}
 	case "C14conc":
 		for _, cf := range c14Configs(tier) {
 			cf := cf
@@ -1089,7 +1100,7 @@ func simpleAssumptions(h string) []string {
 			"the controller harness of C18atom (real controller.Controller, packages controller and controller/rest under the scheduler: Controller.RWMutex, the handlers' fan-out goroutines and wait groups, the monitoring goroutines; real *remote.Remote backends in front of E-B's model replica nodes) behind the real controller/rest router; memberships: 3 RW, 2 RW + 1 WO synced, 2 RW of RF 3",
 			"each execution builds its own cluster inside the scheduler (not explored), then the handlers of the configuration's requests run concurrently; oracle: every handler returns, none panics (a double unlock is a panic of the shimmed mutex), afterwards the controller lock is free, GET /v1/volumes and GET /v1/replicas are answered 200 and the membership invariants of C18 hold",
 		}
-	case "C14conc":
+	case "C14conc", "C17open":
 		return []string{
 			"a real replica.Server on a scratch directory (created, opened RW, two snapshots, three written blocks; or created and closed) behind the real replica/rest router; package replica runs under the scheduler: Server.RWMutex, Replica.RWMutex (Go's writer preference modelled: a Lock call announces itself, later RLock calls wait), revisionLock, rmLock are scheduling points; file-system calls and the HTTP plumbing between two points run atomically",
 			"the hole-punching goroutine is idle (reclamation off, as in a freshly started replica); its drain branch is played by a managed stub thread",
